@@ -5,6 +5,7 @@ mod c05;
 mod c08;
 mod c19;
 mod c20;
+mod engine;
 mod util;
 mod voc;
 mod voices;
@@ -38,6 +39,7 @@ fn main() {
         i += 1;
     }
     match prop {
+        "C01" => engine::gen_c01(seed, thorough),
         "C02" => c02::gen(seed, thorough),
         "C05" => c05::gen_c05(seed, thorough),
         "VOC0" => voc::gen_raw(seed, thorough, false),
